@@ -275,6 +275,9 @@ def onEvent (s : S) (tid point : String) (ev : String) : S :=
         else s.fail s!"Sync returned {cls} but the model is in {repr o.st}"
       | .returned b => if b == (cls == "closed") then s else s.fail s!"Sync returned {cls}; the model says serverClosed = {b}"
       | _ => s.fail s!"Sync returned {cls} but the model is in {repr o.st}"
+  | ["pcancel"] =>
+    -- the context the bootstrap was created with is cancelled: every derived context is done, nothing else happens
+    (s.lglobal .cancel "parent context cancelled").cglobal .cancel "parent context cancelled"
   | ["shutdown", "panic"] =>
     if s.viol.isNone then { s with viol := some "a panic escaped from Shutdown into its caller (the remaining channels are not closed)" } else s
   | ["shutdown", "ret", x] =>
